@@ -25,10 +25,20 @@ TEMPS = {
     "textlist": ('(tl verkettet mit "neu")', "die Länge von %s"),
     "struct": ("(mach_K 1 (t verkettet mit \"s\"))", "fz von %s"),
     "call": ("(baue t)", "die Länge von %s"),
+    # a non-primitive part taken out of a temporary: the part and the rest are owned exactly once
+    "field-of-literal": ('(ft von (mach_K 1 (t verkettet mit "s")))', "die Länge von %s"),
+    "field-of-result": ("(ft von (neues_K t))", "die Länge von %s"),
+    "listfield-of-temp": ("(fl von (mach_G l (mach_K 2 t)))", "die Länge von %s"),
+    "nested-field-of-temp": ("(ft von (fk von (mach_G l (neues_K t))))", "die Länge von %s"),
+    "element-of-temp": ('((tl verkettet mit "neu") an der Stelle 3)', "die Länge von %s"),
+    "field-of-element-of-temp": ("(ft von ((eine Liste, die aus (mach_K 1 t), (neues_K t) besteht) an der Stelle 2))", "die Länge von %s"),
+    "slice-of-temp": ('((t verkettet mit "wxyz") im Bereich von 2 bis 4)', "die Länge von %s"),
 }
 DECLS = ('Der Text t ist "ab".\nDie Zahlen Liste l ist eine Liste, die aus 1, 2, 3 besteht.\nDie Text Liste tl ist eine Liste, die aus "a", "b" besteht.\n'
          'Die Variable v ist t verkettet mit "v".\n')
 PRELUDE = (HEAD + 'Wir nennen die Kombination aus\n\tder Zahl fz mit Standardwert 0,\n\tdem Text ft mit Standardwert "",\neinen K, und erstellen sie so:\n\t"mach_K <fz> <ft>"\n\n'
+           'Wir nennen die Kombination aus\n\tder Zahlen Liste fl mit Standardwert eine leere Zahlen Liste,\n\tdem K fk mit Standardwert der Standardwert von einem K,\neinen G, und erstellen sie so:\n\t"mach_G <fl> <fk>"\n\n'
+           'Die Funktion neues_K mit dem Parameter p vom Typ Text, gibt einen K zurück, macht:\n\tGib mach_K 7 (p verkettet mit "neu") zurück.\nUnd kann so benutzt werden:\n\t"neues_K <p>"\n\n'
            'Die Funktion baue mit dem Parameter p vom Typ Text, gibt einen Text zurück, macht:\n\tGib p verkettet mit p zurück.\nUnd kann so benutzt werden:\n\t"baue <p>"\n\n')
 
 
@@ -50,8 +60,9 @@ def control_flow_programs():
             yield "while:%s:%s" % (kind, ename), DECLS + "Die Zahl i ist 0.\nSolange i kleiner als %s ist, mache:\n\tErhöhe i um 1.\n%s" % (n, body)
             yield "dowhile:%s:%s" % (kind, ename), DECLS + "Die Zahl i ist 0.\nMache:\n\tErhöhe i um 1.\n%sSolange i kleiner als %s ist.\n" % (body, n)
             yield "repeat:%s:%s" % (kind, ename), DECLS + "Die Zahl i ist 0.\nWiederhole:\n\tErhöhe i um 1.\n%s(%s) Mal.\n" % (body, n)
-            if kind in ("text", "list", "textlist", "call"):
-                elt = {"text": "jeden Buchstaben", "list": "jede Zahl", "textlist": "jeden Text", "call": "jeden Buchstaben"}[kind]
+            if kind in ("text", "list", "textlist", "call", "field-of-result", "listfield-of-temp"):
+                elt = {"text": "jeden Buchstaben", "list": "jede Zahl", "textlist": "jeden Text", "call": "jeden Buchstaben",
+                       "field-of-result": "jeden Buchstaben", "listfield-of-temp": "jede Zahl"}[kind]
                 yield "foreach:%s:%s" % (kind, ename), DECLS + "Die Zahl i ist 0.\nFür %s e in %s, mache:\n\tErhöhe i um 1.\n%s" % (elt, tmp, body)
         # returns out of nested scopes of a function, with live locals and temporaries on the way
         for where in ("top", "if", "loop", "loop-in-if", "foreach", "foreach-texts", "foreach-kombis", "foreach-nested"):
